@@ -1,5 +1,9 @@
 CONSTANTS
-  ShapeNames <- AllShapes
+  ShapeNames <- MCHistShapes
+  HistShapes <- MCHistShapes
+  HistWraps <- MCHistWraps
+  Instances = {0, 1}
+  Depth = 10
   Variants = {0, 1, 2, 3}
   LaxTolerated = {"nonMinimalInteger", "emptyOID", "printableIsLatin1", "printableIsT61"}
   AlwaysRejected = {"nonMinimalLength", "leadingZeroLength", "indefiniteLength", "nonMinimalTag", "truncated",
@@ -8,13 +12,13 @@ CONSTANTS
                     "badBool", "boolTwoOctets", "badBitStringPadding", "bitStringPadTooBig", "emptyBitString", "badTime"}
   DeliberateDiff = {"oidArcLeading80", "highTagLeading80", "genTimeFraction", "setOfUnsorted"}
   Benign = {"rawInnerNonDER", "trailingInSequence", "utcNoSeconds"}
-  AncestorDefects <- QuickAncestorDefects
-  Wraps <- Wraps1
+  AncestorDefects = {}
+  Wraps = {}
   TimeBoundaries = {1950, 2050}
   TimeMinutes <- MCTimeMinutes
   TimeOffsets <- MCTimeOffsets
-INIT Init
-NEXT Next
-INVARIANTS TypeOK LaxSuperset LaxOnlyDocumented LaxPropagates AncestorDepth LaxIsLocal StrictEqUpstream DiffsAreDiffs
-           Rejected BenignAccepted RoundTrip TimeRoundTripDER ZoneOffsetRoundTrip TimeFormsAccepted TagByWrittenYear LengthRoundTrip LengthFormsRejected RawContentKeeps Export
+INIT HInit
+NEXT HNext
+INVARIANTS HistTypeOK CallIsFunction FreshIsAlone KeepsOnlyAbsentOptional ElementsAreFresh FullWriteForgets
+           SyncMeansSameVerdicts ExportFinished
 CHECK_DEADLOCK FALSE
